@@ -37,6 +37,8 @@ type Stats struct {
 	Errors   int
 	Time     time.Duration
 	Restarts int
+	MaxQuery time.Duration
+	Slow     int
 }
 
 // Proc is one long-lived solver process speaking SMT-LIB2 on stdin/stdout.
@@ -175,8 +177,15 @@ func (p *Proc) Check() (Result, error) {
 	t0 := time.Now()
 	p.Send("(check-sat)\n")
 	resp, err := p.readResp()
-	p.Stats.Time += time.Since(t0)
+	d := time.Since(t0)
+	p.Stats.Time += d
 	p.Stats.Queries++
+	if d > p.Stats.MaxQuery {
+		p.Stats.MaxQuery = d
+	}
+	if d > 2*time.Second {
+		p.Stats.Slow++
+	}
 	if err != nil {
 		p.Stats.Errors++
 		p.Dead = err
